@@ -162,7 +162,8 @@ def _inv(aff, x, y):
         if math.isinf(v):
             return PINF if v > 0 else NINF
         m = (v - t) / s
-        return int(m) if float(m).is_integer() else m
+        r = round(m)
+        return int(r) if abs(m - r) < 1e-9 else m          # (non-dyadic images: the quotient is an integer up to rounding)
     return [one(x, aff.sx, aff.tx), one(y, aff.sy, aff.ty)]
 
 
